@@ -28,7 +28,7 @@ IsFirst(seq, i) == \A j \in 1..(i - 1) : seq[j] # seq[i]
 RepeatMark(ts, ls, ss, p) == IF IsFirst(ts, p[1]) /\ IsFirst(ls, p[2]) /\ IsFirst(ss, p[3]) THEN 0 ELSE 500
 
 \* extra field names of the generators, in a fixed order (values of different fields differ)
-ExtraPool == <<"q0.005", "q0.01", "Tmax", "e0", "e1", "e2">>
+ExtraPool == <<"q0.005", "q0.01", "Tmax", "e0", "e1", "e2", "q0.001", "q0.5">>
 ExtraOrderBefore(f) == {ExtraPool[k] : k \in 1..(IndexIn(ExtraPool, f) - 1)}
 \* g = [ts, ls, ss, hasObs, mo, mf] ; j = owner (forecast offset) ; mo/mf = missing positions
 MkInput(g, j) ==
@@ -215,10 +215,12 @@ UC11All(u) == {[inp |-> <<[ts |-> SubSeq(TimePool, 1, 9), ls |-> L6, ss |-> Sa, 
 ClimShapes == {<<T2, L1, S2>>, <<Tb, L1, Sb>>, <<<<TimePool[2], TimePool[3], TimePool[1]>>, <<LeadPool[2], LeadPool[1]>>, <<LocPool[3], LocPool[2], LocPool[1]>>>>,
                <<<<TimePool[1]>>, L1, S2>>, <<T2, L1, <<LocPool[2]>>>>}
 UC14(u) == {[inp |-> <<In212(TRUE, a, b)>>,
-             clim |-> [on |-> TRUE, ts |-> sh[1], ls |-> sh[2], ss |-> sh[3], hasObs |-> ho, mo |-> {}, mf |-> mf,
+             clim |-> [on |-> TRUE, ts |-> sh[1], ls |-> sh[2], ss |-> sh[3], hasObs |-> ho[1], mo |-> ho[2], mf |-> mf,
                        mode |-> m[1], type |-> m[2]], opt |-> NoOptions]
               : a \in SUBSET {<<1, 1, 1>>, <<2, 1, 2>>}, b \in SUBSET {<<1, 1, 2>>, <<2, 1, 2>>}, sh \in ClimShapes,
-                mf \in {{}, {<<1, 1, 1>>}, {<<1, 1, 1>>, <<2, 1, 1>>}}, ho \in BOOLEAN,
+                mf \in {{}, {<<1, 1, 1>>}, {<<1, 1, 1>>, <<2, 1, 1>>}},
+                \* the climatology file may bring its own observation column, with its own missing values (they count like any input's)
+                ho \in {<<FALSE, {}>>, <<TRUE, {}>>, <<TRUE, {<<1, 1, 2>>}>>},
                 m \in {<<"lin", "subtract">>, <<"small", "divide">>, <<"small", "subtract">>, <<"lin", "divide">>}}
 UC14Two(u) == {[inp |-> <<In212(TRUE, a, b), In212(h, {}, d)>>,
              clim |-> [on |-> TRUE, ts |-> sh[1], ls |-> sh[2], ss |-> sh[3], hasObs |-> FALSE, mo |-> {}, mf |-> mf,
@@ -239,7 +241,9 @@ UC18Single(u) == {[inp |-> <<In221(TRUE, a, b), In221(h, {}, d)>>, clim |-> NoCl
 \* a case counts only if EVERY requested field is present in EVERY input (C01); the two quantile levels are different fields (C18)
 ExIn(hasObs, mo, mf, e1, e2, e3) == [ts |-> T2, ls |-> L1, ss |-> S2, hasObs |-> hasObs, mo |-> mo, mf |-> mf, bump |-> 0,
                                       ex |-> ("q0.005" :> e1 @@ "q0.01" :> e2 @@ "Tmax" :> e3)]
-UCExtra(u) == {[inp |-> <<ExIn(TRUE, a, {}, b, {}, {<<2, 1, 2>>}), ExIn(h, {}, d, {}, e, {})>>, clim |-> NoClimGen, opt |-> NoOptions]
+\* the second input stores two more quantile levels than the first (one below, one above the shared ones): its columns sit elsewhere
+ExIn2(hasObs, mo, mf, e1, e2, e3) == [ExIn(hasObs, mo, mf, e1, e2, e3) EXCEPT !.ex = @ @@ ("q0.001" :> {} @@ "q0.5" :> {})]
+UCExtra(u) == {[inp |-> <<ExIn(TRUE, a, {}, b, {}, {<<2, 1, 2>>}), ExIn2(h, {}, d, {}, e, {})>>, clim |-> NoClimGen, opt |-> NoOptions]
                  : a \in {{}, {<<1, 1, 1>>}}, b \in {{}, {<<1, 1, 2>>}}, d \in {{}, {<<2, 1, 1>>}}, e \in {{}, {<<1, 1, 1>>, <<2, 1, 2>>}}, h \in BOOLEAN}
 UC18Mix(u) == {[inp |-> <<In212(TRUE, a, b), In212(h, {}, d)>>, clim |-> cl, opt |-> o]
                   : a \in {{}, {<<1, 1, 1>>}}, b \in {{<<1, 1, 2>>}}, d \in {{}, {<<2, 1, 2>>}}, h \in BOOLEAN,
